@@ -37,7 +37,8 @@ PROFILES = {
     "grumpy-add": st.one_of(K, K, K, GR("add")),
     "inexact": st.one_of(INEXACT_FLOATS, INEXACT_FLOATS, st.integers(-2, 5).map(lambda n: ["i", n])),
     "item": K,
-    "truthy": st.one_of(K, TRUTHY_PRIMS),
+    # mixed truthiness; occasionally a data item that is itself awaitable (must never be awaited)
+    "truthy": st.one_of(K, K, TRUTHY_PRIMS, TRUTHY_PRIMS, TRUTHY_PRIMS, st.just(("AW",))),
     "num": st.one_of(NUM_PRIMS, NUM_PRIMS, NUM_PRIMS, K,
                      st.tuples(st.integers(-1, 2), st.integers(-1, 1)).map(lambda t: ["c", t[0], t[1]])),
     "lists": st.tuples(st.sampled_from(["l", "l", "l", "t"]),
@@ -69,6 +70,9 @@ class Uids:
         if isinstance(v, tuple) and v and v[0] == "GR":
             self.n += 1
             return ["G", v[1], self.n - 1]
+        if isinstance(v, tuple) and v and v[0] == "AW":
+            self.n += 1
+            return ["W", self.n - 1]
         if isinstance(v, (list, tuple)) and v and v[0] in ("t", "l"):
             return [v[0], [self.fix(x) for x in v[1]]]
         return list(v) if isinstance(v, tuple) else v
